@@ -37,6 +37,13 @@ def jobs(tier, seed):
         out.append({'name': op + '-all', 'op': op, 'layers': L + 1, 'shape': [1, 1], 'sym': 'all', 'data_vars': None})
         out.append({'name': op + '-reordered-vars', 'op': op, 'layers': 3, 'shape': [1, 2], 'sym': 'all', 'data_vars': [2, 0, 1]})
         out.append({'name': op + '-subset-vars', 'op': op, 'layers': 4, 'shape': [1, 1], 'sym': 'all', 'data_vars': [3, 0]})
+    # mixed layer dtypes (an integer first layer next to non-integer floats): the result must not inherit a layer's dtype
+    for op, extra in (('rank', {'ref': 1}), ('cell_stats', {'func': 'mean'}), ('cell_stats', {'func': 'max'}), ('lesser_frequency', {'ref': 2}), ('highest_position', {}), ('combine', {})):
+        for dts in (['int32', 'float64', 'float32'], ['float32', 'int64', 'float64']):
+            if op == 'combine':
+                dts = dts[:2]
+            out.append(dict({'name': '%s%s-mixed-%s' % (op, '-' + extra['func'] if 'func' in extra else '', '-'.join(dts)), 'op': op, 'layers': len(dts), 'shape': [1, 2], 'sym': 'all',
+                             'data_vars': None, 'dtypes': dts}, **extra))
     out.append({'name': 'combine-1x3', 'op': 'combine', 'layers': 2, 'shape': [1, 3], 'sym': 'all', 'data_vars': None})
     out.append({'name': 'combine-2x2-reordered', 'op': 'combine', 'layers': 2, 'shape': [2, 2], 'sym': 'all', 'data_vars': [1, 0]})
     # non-square raster, one symbolic cell per job position: output cell (y, x) must depend on input cell (y, x) only
@@ -56,7 +63,8 @@ def _dataset(ctx, job):
     raw = {}
     for li, nm in enumerate(names):
         if job['sym'] == 'all':
-            a = ctx.array(nm, (h, w), 'float64', nan=True)
+            dt = (job.get('dtypes') or ['float64'] * L)[li]
+            a = ctx.array(nm, (h, w), dt, nan=True, **({'lo': -3, 'hi': 3} if dt[0] in 'iu' else {}))
         else:
             py, px = job['sym']
             a = symnp.asarray([[float((li + 1) * 10 + ((y * 7 + x * 3 + li * 5) % 4)) for x in range(w)] for y in range(h)], 'float64').copy()
